@@ -574,11 +574,12 @@ func (c *Ctx) readsAllRule(rule, fname, msg string, alsoParam bool) {
 	}
 	fields := c.schema(msg)
 	recv, par := recvAndParam(d)
-	m := mentions(d.pkg, d.fd.Body, recv)
+	m := mentionsThroughHelpers(c, d, recv, 0)
 	var mp map[string]bool
 	if alsoParam {
-		mp = mentions(d.pkg, d.fd.Body, par)
+		mp = mentionsThroughHelpers(c, d, par, 0)
 	}
+	c.nestedEncoders(rule, d, recv, 0, map[*types.Func]bool{})
 	for _, f := range fields {
 		construct := fname + "#" + f.Name()
 		ok := m[f.Name()] && (!alsoParam || mp[f.Name()])
@@ -586,4 +587,172 @@ func (c *Ctx) readsAllRule(rule, fname, msg string, alsoParam bool) {
 			"reads "+f.Name(),
 			fmt.Sprintf("%s never reads schema field %s.%s: two values differing only in %s are treated as equal", fname, msg, f.Name(), f.Name()))
 	}
+}
+
+// mentionsThroughHelpers: the fields of obj read in d, and in module functions d hands obj to as
+// receiver or argument (an encoder split into a writer helper reads the same fields).
+func mentionsThroughHelpers(c *Ctx, d *declInfo, obj types.Object, depth int) map[string]bool {
+	out := mentions(d.pkg, d.fd.Body, obj)
+	if depth > 2 || obj == nil {
+		return out
+	}
+	for _, cs := range callsIn(d.pkg, d.fd.Body) {
+		if cs.callee.Pkg() == nil || !strings.HasPrefix(cs.callee.Pkg().Path(), modPath+"/") || cs.callee == d.obj {
+			continue
+		}
+		fd, pk := c.P.FuncDecl(objName(cs.callee))
+		if fd == nil || fd.Body == nil {
+			continue
+		}
+		var target types.Object
+		if sel, ok := cs.call.Fun.(*ast.SelectorExpr); ok && objOf(d.pkg, sel.X) == obj && fd.Recv != nil && len(fd.Recv.List) == 1 && len(fd.Recv.List[0].Names) == 1 {
+			target = pk.TypesInfo.Defs[fd.Recv.List[0].Names[0]]
+		}
+		if target == nil {
+			k := 0
+			for _, fl := range fd.Type.Params.List {
+				for _, nm := range fl.Names {
+					if k < len(cs.call.Args) && objOf(d.pkg, cs.call.Args[k]) == obj {
+						target = pk.TypesInfo.Defs[nm]
+					}
+					k++
+				}
+			}
+		}
+		if target == nil {
+			continue
+		}
+		hd := &declInfo{fd: fd, pkg: pk, obj: cs.callee, name: objName(cs.callee)}
+		for f := range mentionsThroughHelpers(c, hd, target, depth+1) {
+			out[f] = true
+		}
+	}
+	return out
+}
+
+// nestedEncoders: an element of a message-typed list ranged inside an encoder (or a helper the
+// encoder hands its subject to) is itself encoded by a function that reads every schema field of
+// the element's type — the registered encoder, or a helper that is as complete. A helper that
+// writes only the element's scalar fields drops what is nested below it.
+func (c *Ctx) nestedEncoders(rule string, d *declInfo, subject types.Object, depth int, seen map[*types.Func]bool) {
+	if depth > 2 || subject == nil || seen[d.obj] {
+		return
+	}
+	seen[d.obj] = true
+	info := d.pkg.TypesInfo
+	ast.Inspect(d.fd.Body, func(n ast.Node) bool {
+		rs, ok := n.(*ast.RangeStmt)
+		if !ok || rs.Value == nil {
+			return true
+		}
+		f, isField := fieldOf(d.pkg, rs.X, subject)
+		if !isField {
+			return true
+		}
+		ev := objOf(d.pkg, rs.Value)
+		if ev == nil {
+			return true
+		}
+		et := ev.Type()
+		if pt, isP := et.(*types.Pointer); isP {
+			et = pt.Elem()
+		}
+		nt, isNamed := et.(*types.Named)
+		if !isNamed || nt.Obj().Pkg() == nil || nt.Obj().Pkg().Path() != modPath+"/pkg/sbom" {
+			return true
+		}
+		if _, isStruct := nt.Underlying().(*types.Struct); !isStruct {
+			return true
+		}
+		want := exportedFields(nt)
+		for _, cs := range callsIn(d.pkg, rs.Body) {
+			if cs.callee.Pkg() == nil || !strings.HasPrefix(cs.callee.Pkg().Path(), modPath+"/") {
+				continue
+			}
+			fd, pk := c.P.FuncDecl(objName(cs.callee))
+			if fd == nil || fd.Body == nil {
+				continue
+			}
+			var target types.Object
+			if sel, ok := cs.call.Fun.(*ast.SelectorExpr); ok && objOf(d.pkg, sel.X) == ev && info.Selections[sel] != nil && fd.Recv != nil && len(fd.Recv.List) == 1 && len(fd.Recv.List[0].Names) == 1 {
+				target = pk.TypesInfo.Defs[fd.Recv.List[0].Names[0]]
+			}
+			if target == nil {
+				k := 0
+				for _, fl := range fd.Type.Params.List {
+					for _, nm := range fl.Names {
+						if k < len(cs.call.Args) && objOf(d.pkg, cs.call.Args[k]) == ev {
+							target = pk.TypesInfo.Defs[nm]
+						}
+						k++
+					}
+				}
+			}
+			if target == nil {
+				continue
+			}
+			hd := &declInfo{fd: fd, pkg: pk, obj: cs.callee, name: objName(cs.callee)}
+			construct := fmt.Sprintf("%s#%s[]→%s", d.name, f, nt.Obj().Name())
+			// the element's own encoder (checked by its own obligations), directly or through a
+			// wrapper such as Checksum
+			if viaRegisteredEncoder(c, hd, target, 0) {
+				c.ok(rule, construct, c.P.Pos(cs.call.Pos()), "elements of "+f+" are encoded by "+nt.Obj().Name()+"'s own encoder")
+				continue
+			}
+			got := mentionsThroughHelpers(c, hd, target, 0)
+			var missing []string
+			for _, w := range want {
+				if !got[w.Name()] {
+					missing = append(missing, w.Name())
+				}
+			}
+			c.check(len(missing) == 0, rule, construct, c.P.Pos(cs.call.Pos()), "elements of "+f+" are encoded by "+hd.name+", which reads every field of "+nt.Obj().Name(),
+				fmt.Sprintf("the elements of %s are encoded by %s, which never reads %s.%v: two values differing only there (e.g. below the first nesting level) are treated as equal", f, hd.name, nt.Obj().Name(), missing))
+		}
+		return true
+	})
+	// the subject handed on to helpers of the encoder
+	for _, cs := range callsIn(d.pkg, d.fd.Body) {
+		if cs.callee.Pkg() == nil || !strings.HasPrefix(cs.callee.Pkg().Path(), modPath+"/") || cs.callee == d.obj {
+			continue
+		}
+		fd, pk := c.P.FuncDecl(objName(cs.callee))
+		if fd == nil || fd.Body == nil {
+			continue
+		}
+		var target types.Object
+		if sel, ok := cs.call.Fun.(*ast.SelectorExpr); ok && objOf(d.pkg, sel.X) == subject && fd.Recv != nil && len(fd.Recv.List) == 1 && len(fd.Recv.List[0].Names) == 1 {
+			target = pk.TypesInfo.Defs[fd.Recv.List[0].Names[0]]
+		}
+		if target != nil {
+			c.nestedEncoders(rule, &declInfo{fd: fd, pkg: pk, obj: cs.callee, name: objName(cs.callee)}, target, depth+1, seen)
+		}
+	}
+}
+
+// viaRegisteredEncoder: hd is a message's flatString method, or calls one on target.
+func viaRegisteredEncoder(c *Ctx, hd *declInfo, target types.Object, depth int) bool {
+	if strings.HasSuffix(hd.name, ").flatString") {
+		return true
+	}
+	if depth > 2 {
+		return false
+	}
+	for _, cs := range callsIn(hd.pkg, hd.fd.Body) {
+		sel, ok := cs.call.Fun.(*ast.SelectorExpr)
+		if !ok || objOf(hd.pkg, sel.X) != target {
+			continue
+		}
+		if strings.HasSuffix(objName(cs.callee), ").flatString") {
+			return true
+		}
+		fd, pk := c.P.FuncDecl(objName(cs.callee))
+		if fd == nil || fd.Body == nil || fd.Recv == nil || len(fd.Recv.List) != 1 || len(fd.Recv.List[0].Names) != 1 {
+			continue
+		}
+		if viaRegisteredEncoder(c, &declInfo{fd: fd, pkg: pk, obj: cs.callee, name: objName(cs.callee)}, pk.TypesInfo.Defs[fd.Recv.List[0].Names[0]], depth+1) {
+			return true
+		}
+	}
+	return false
 }
